@@ -170,6 +170,57 @@ def liftI (i : Instr) (a : Nat) : Option Function :=
     | _ => none
   | _ => none
 
+/-- `unaligned_bits(address, endian, from_left)`: the position of the addressed byte in its aligned word, counted from the
+    most-significant end (`from_left`) or the other end, times 8 -/
+def unalignedBits (big fromLeft : Bool) (addr : Expr) : Expr :=
+  .bin .shl (if big == fromLeft then .bin .and addr (c32 3) else .bin .sub (c32 3) (.bin .and addr (c32 3))) (c32 3)
+
+/-- lwl / lwr / swl / swr: the lifted IL depends on the byte order the translator was created for -/
+def liftUnaligned (big : Bool) (i : Instr) (a : Nat) : Option Function :=
+  let t : Scalar := { name := tempName a, bits := 32 }
+  match i with
+  | .load .lwl rt base off =>
+    let addr := eaExpr base off
+    let bits := unalignedBits big true addr
+    some (g1 a [.load t (.bin .and (c32 0xfffffffc) addr),
+                .assign (rsc rt) (.bin .or (.bin .shl (.scalar t) bits)
+                  (.bin .and (rx rt) (.bin .sub (.bin .shl (c32 1) bits) (c32 1))))])
+  | .load .lwr rt base off =>
+    let addr := eaExpr base off
+    let bits := unalignedBits big false addr
+    some (g1 a [.load t (.bin .and (c32 0xfffffffc) addr),
+                .assign (rsc rt) (.bin .or (.bin .shr (.scalar t) bits)
+                  (.bin .and (rx rt) (.bin .sub (c32 0xffffffff) (.bin .shr (c32 0xffffffff) bits))))])
+  | .store .swl rt base off =>
+    let addr := eaExpr base off
+    let bits := unalignedBits big true addr
+    let aligned := Expr.bin .and (c32 0xfffffffc) addr
+    some (g1 a [.load t aligned,
+                .store aligned (.bin .or (.bin .and (.bin .sub (c32 0xffffffff) (.bin .shr (c32 0xffffffff) bits)) (.scalar t))
+                  (.bin .shr (rx rt) bits))])
+  | .store .swr rt base off =>
+    let addr := eaExpr base off
+    let bits := unalignedBits big false addr
+    let aligned := Expr.bin .and (c32 0xfffffffc) addr
+    some (g1 a [.load t aligned,
+                .store aligned (.bin .or (.bin .and (.bin .sub (c32 0xffffffff) (.bin .shl (c32 0xffffffff) bits)) (.scalar t))
+                  (.bin .shl (rx rt) bits))])
+  | _ => none
+
+/-- the `BlockTranslationResult` of lwl / lwr (proved in `FalconProofs/C02/Unaligned.lean`) -/
+def liftUnalignedSingle (big : Bool) (i : Instr) (addr : Nat) : Option BTR :=
+  match i with
+  | .load _ _ _ _ =>
+    (liftUnaligned big i addr).map fun f => { addr := addr, length := 4, instrs := [f], succs := [(addr + 4, none)] }
+  | _ => none
+
+/-- … and of swl / swr (mirrored for the syntactic comparison only: class (C)) -/
+def liftUnalignedStoreSingle (big : Bool) (i : Instr) (addr : Nat) : Option BTR :=
+  match i with
+  | .store _ _ _ _ =>
+    (liftUnaligned big i addr).map fun f => { addr := addr, length := 4, instrs := [f], succs := [(addr + 4, none)] }
+  | _ => none
+
 /-- the condition latched by a conditional branch, `none` for the unconditional forms -/
 def brCond : Instr → Option (Option Expr)
   | .br2 .beq rs rt _ => some (if rs = 0 ∧ rt = 0 then none else some (.bin .cmpeq (rx rs) (rx rt)))     -- `b`
@@ -215,10 +266,17 @@ def liftPair (b d : Instr) (addr : Nat) : Option BTR :=
         | _, _ => none
 
 /-- the `BlockTranslationResult` for one instruction word, or for a branch word and its delay-slot word -/
-def liftBTR (_big : Bool) (ws : List Word) (addr : Nat) : Option BTR :=
+def liftBTR (big : Bool) (ws : List Word) (addr : Nat) : Option BTR :=
   match ws with
-  | [w] => (decode w).bind fun i => liftSingle i addr
+  | [w] => (decode w).bind fun i => (liftSingle i addr).orElse fun _ => liftUnalignedSingle big i addr
   | [wb, wd] => (decode wb).bind fun b => (decode wd).bind fun d => liftPair b d addr
   | _ => none
+
+/-- what the driver compares falcon's IL with: `liftBTR` (all proved) plus the unproved swl / swr -/
+def liftBTRall (big : Bool) (ws : List Word) (addr : Nat) : Option BTR :=
+  (liftBTR big ws addr).orElse fun _ =>
+    match ws with
+    | [w] => (decode w).bind fun i => liftUnalignedStoreSingle big i addr
+    | _ => none
 
 end Falcon.Isa.Mips
